@@ -28,19 +28,21 @@ SPEC = {
     "props_module": "NDB.Props.C23",
     "corr_modules": ["NDB.Corr.C23"],
     "theorems": ["C23_truth_tables", "C23_de_morgan", "C23_null_propagates", "C23_eq_equivalence",
-                 "C23_cmp_consistent", "C23_numeric_exact", "C23_temporal_refuted", "C23_overflow_rule"],
+                 "C23_cmp_consistent", "C23_numeric_exact", "C23_temporal_refuted", "C23_overflow_rule",
+                 "C23_eq_equivalence_all"],
     "allowed_axioms": ALLOWED_PRIMITIVES,
     "harness_pkg": "hx_cypher",
     "harness_bin": "c23",
-    "n": {"quick": 4000, "thorough": 60000},
+    "n": {"quick": 2400, "thorough": 60000},
     "trusted_base": TRUSTED_COMMON,
     "assumptions": [
-        "quantifier: all values for the logic laws and null propagation; booleans, all i64, all non-NaN doubles and all byte "
-        "strings for the equality/ordering laws (lists and maps: equality/ordering laws are checked on the implementation by the "
-        "direct search and the correspondence only, not proved)",
+        "quantifier: all values for the logic laws and null propagation; = is proved an equivalence on all values without null/NaN "
+        "at any depth (nested lists and maps included); the laws relating < <= > >= to each other and to = are proved for "
+        "booleans, all i64, all non-NaN doubles and all byte strings (for lists they are checked on the implementation by the "
+        "direct search and the correspondence only)",
         "strings: laws relating < <= > >= to = are proved for every temporal classification except pairs of strings of the same "
         "temporal kind (K-C23-temporal, refuted by C23_temporal_refuted); transitivity of < for strings that are not temporal",
-        "`%` and `^` with float operands, duration maps and temporal arithmetic are outside the model",
+        "`^`, duration maps and temporal arithmetic are outside the model (`%` on floats is modelled exactly as C fmod)",
     ],
     "manifest": {
         "category": "proof",
